@@ -65,6 +65,22 @@ func cmdReplay(args []string) {
 		fmt.Println("harness does not load against the current tree:", oneLine(err.Error()))
 		os.Exit(2)
 	}
+	if contains(spec.EngineOnly, tp.Harness) {
+		for from, to := range spec.Subst {
+			if err := e.AddSubst(from, to); err != nil {
+				fmt.Println("substitution:", err)
+				os.Exit(2)
+			}
+		}
+		ok, note := engineConfirm(&runResult{spec: spec, engine: e}, pkg, &tp, tp.Assert)
+		fmt.Printf("replay %s: harness=%s %s\n", filepath.Base(path), tp.Harness, note)
+		if ok {
+			fmt.Printf("VIOLATION property=%s replay=%s\n", id, path)
+			os.Exit(1)
+		}
+		fmt.Println("the tape no longer violates", tp.Assert, "on the current tree")
+		return
+	}
 	if isToolHarness(tp.Harness) {
 		for from, to := range spec.Subst {
 			if err := e.AddSubst(from, to); err != nil {
